@@ -227,9 +227,9 @@ let prog_line line =
            "new=" ^ newerr_string er ^ fs
        | Inr (RWrap (_, n) as r) -> Printf.sprintf "new=wrap:%d\tfacts=%s\tf1=%d" (int_of_nat n) (facts_string bs e) (if f1_risk r then 1 else 0)
        | Inr (RFancy (p, n) as r) ->
-           Printf.sprintf "new=fancy:%d\tfacts=%s\tprog=%s\tnsaves=%d\tf1=%d\tscope=%d\tscope3=%d" (int_of_nat n) (facts_string bs e)
+           Printf.sprintf "new=fancy:%d\tfacts=%s\tprog=%s\tnsaves=%d\tf1=%d\tscope=%d\tscope3=%d\tscope4=%d" (int_of_nat n) (facts_string bs e)
              (String.concat " " (List.map insn_string p.p_body)) (int_of_nat p.p_nsaves)
-             (if f1_risk r then 1 else 0) (if in_scope bs e then 1 else 0) (if in_scope_all bs e then 1 else 0))
+             (if f1_risk r then 1 else 0) (if in_scope bs e then 1 else 0) (if in_scope_all bs e then 1 else 0) (if vm_scope_b bs e then 1 else 0))
   | _ -> failwith "prog: bad line"
 
 let fuel_big = nat_of_int 400000
